@@ -102,7 +102,7 @@ def impl_run(fr, ops, nbits=8):
                 elif a.ndim != 1 or a.size != arg * bf or (a.size and int(a.max()) >> nbits):
                     r = (3, f"cread({arg * bf}) at {nbits} bits returned {a.size} samples, max {a.max() if a.size else 0}".encode())
                 else:
-                    r = (1, np_pack(a, nbits))
+                    r = (1, np_pack(a, nbits), [int(v) for v in a])   # third: the samples as returned, for the Coq correspondence
             else:
                 buf = mk_buffer(arg, o[2] if len(o) > 2 else "ba")
                 if nbits >= 8:
@@ -117,7 +117,7 @@ def impl_run(fr, ops, nbits=8):
             r = (2, b"")
         except Exception as e:  # noqa: BLE001
             r = (3, type(e).__name__.encode())
-        res.append((r[0], r[1], fr.cur_data_pos_stream))
+        res.append((r[0], r[1], fr.cur_data_pos_stream) + tuple(r[2:]))
     return res
 
 
@@ -154,8 +154,27 @@ def gen_ops(rng, total, isz, length, exhaustive_alphabet=None):
     return ops
 
 
-def coq_ops(ops):
-    return "[" + "; ".join(f"{o[0]} ({o[1]})" for o in ops) + "]"
+BUF_ITEM = {"ba": 1, "u1": 1, "mvb": 1, "u2": 2, "mv2": 2, "f4": 4}
+
+
+def coq_ops(ops, nbits=8):
+    """the API operations of Model/StreamApi.v as the implementation was called: cread in units, creadinto with the
+    item size and item count of the caller's buffer"""
+    bf = 8 // nbits if nbits < 8 else 1
+    out = []
+    for o in ops:
+        if o[0] in ("SeekSet", "SeekCur"):
+            out.append(f"A{o[0]} ({o[1]})")
+        elif o[0] == "Cread":
+            out.append(f"ACread ({o[1] * bf})")
+        else:
+            b = BUF_ITEM[o[2] if len(o) > 2 else "ba"]
+            out.append(f"ACreadinto {b} {o[1] // b}")
+    return "[" + "; ".join(out) + "]"
+
+
+def coq_depth(nbits):
+    return f"(DBits {nbits} {'true' if ORDER[nbits] == 'big' else 'false'})" if nbits < 8 else "DBytes"
 
 
 def write_raw_set(base, x, nbits, splits, tsamp=0.001, tstart=60000.0):
@@ -197,7 +216,10 @@ def run(R: vlib.Run):
               "non-trivial = history touches >= 1 data byte or error")
     R.trusted += ["Coq 8.16.1 kernel + vm_compute", "tools/py2coq: seek arithmetic template-matched from fileio.py (_seek_set, cur_data_pos_stream)",
                   "hand model Model/Stream.v of cread/creadinto loops, tied by this correspondence run",
-                  "refinement theorem is for byte-wide items (isz=1); 2/4-byte items are covered by correspondence + oracle only"]
+                  "refinement theorem is for byte-wide items (isz=1); 2/4-byte items are covered by correspondence + oracle only",
+                  "hand model Model/StreamApi.v (which stream operation an API call performs, what a counted read returns at 1/2/4 bits), tied by "
+                  "this correspondence run; where a fresh reader stands, the length taken for the caller's buffer and the item count of a "
+                  "counted read are regenerated from fileio.py (FileReader.__init__, creadinto, cread) into Gen/Plan.v"]
     R.assume += ["np.fromfile/readinto on regular files read as many bytes as exist", "per-file data sections hold a whole number of items",
                  "at 16/32 bits seek offsets are multiples of the item size whenever a counted read follows (after an unaligned seek "
                  "np.fromfile drops the partial item at the end of a file; buffer reads of any byte length are exact and are checked)",
@@ -207,7 +229,7 @@ def run(R: vlib.Run):
     if "VERIF_CASE_TIMEOUT" not in os.environ:
         R.case_budget = 120.0 if R.tier == "quick" else 600.0   # every implementation call here is a tiny read, ticked individually
     R.prove("Props/C02.v")
-    R.need(["Model/Stream.vo"])
+    R.need(["Model/Stream.vo", "Model/StreamApi.vo"])
     rng = R.rng
     d = os.path.join(vlib.SCRATCH, f"c02_{os.getpid()}")
     os.makedirs(d, exist_ok=True)
@@ -300,16 +322,20 @@ def run(R: vlib.Run):
         for si in range(0, len(batches), per):
             sh = batches[si:si + per]
             rows = []
-            for hdrs, datas, isz, ops, res, _tag in sh:
+            for hdrs, datas, isz, ops, res, (fresh, nbits) in sh:
                 fs = "[" + "; ".join(f"mkfile {vlib.zlist(h)} {vlib.zlist(dt)}" for h, dt in zip(hdrs, datas)) + "]"
-                ex = "[" + "; ".join(f"({k}, {vlib.zlist(b if k == 1 else b'')}, {p})" for k, b, p in res) + "]"
-                rows.append(f"({fs}, {isz}, {coq_ops(ops)}, {ex})")
-            v = ["From Coq Require Import ZArith List Bool.", "Require Import SPP.Base.Rt SPP.Model.Stream.", "Import ListNotations.", "Open Scope Z_scope.",
+                # a counted read at 1/2/4 bits is compared as the samples the implementation returned (r[3]), not re-packed
+                ex = "[" + "; ".join(f"({r[0]}, {vlib.zlist((r[3] if len(r) > 3 else r[1]) if r[0] == 1 else b'')}, {r[2]})" for r in res) + "]"
+                rows.append(f"({fs}, {isz}, {coq_depth(nbits)}, {'true' if fresh else 'false'}, {coq_ops(ops, nbits)}, {ex})")
+            v = ["From Coq Require Import ZArith List Bool.", "Require Import SPP.Base.Rt SPP.Model.Stream SPP.Model.StreamApi.", "Import ListNotations.", "Open Scope Z_scope.",
+                 "(* the state the history starts in: a freshly opened reader (Model/StreamApi.v open_reader, from FileReader.__init__), or that state after seek(0, 0) *)",
+                 "Definition start (fs : list file) (fresh : bool) : option st := match open_reader fs with None => None | Some s0 => Some (if fresh then s0 else fst (seek_set_op fs s0 0)) end.",
+                 "Definition runcase (fs : list file) (isz : Z) (d : depth) (fresh : bool) (ops : list aop) : list (out * Z) := match start fs fresh with None => [] | Some s => if isz =? 1 then api_run d fs s ops else run fs isz s (map (lower DBytes) ops) end.",
                  "Definition enc (r : out * Z) : Z * list Z * Z := match fst r with OUnit => (0, [], snd r) | OBytes l => (1, l, snd r) | OErr ValueError => (2, [], snd r) | OErr OutOfFuel => (9, [], snd r) end.",
                  "Definition eq3 (a b : Z * list Z * Z) : bool := let '(k1, l1, p1) := a in let '(k2, l2, p2) := b in (k1 =? k2) && list_eqb l1 l2 && (p1 =? p2).",
                  "Fixpoint alleq (a b : list (Z * list Z * Z)) : bool := match a, b with [], [] => true | x :: r, y :: s => eq3 x y && alleq r s | _, _ => false end.",
-                 "Definition cases : list (list file * Z * list op * list (Z * list Z * Z)) := [", ";\n".join(rows), "].",
-                 "Definition ok (c : list file * Z * list op * list (Z * list Z * Z)) : bool := let '(fs, isz, ops, ex) := c in alleq (map enc (run fs isz (init fs) ops)) ex.",
+                 "Definition cases : list (list file * Z * depth * bool * list aop * list (Z * list Z * Z)) := [", ";\n".join(rows), "].",
+                 "Definition ok (c : list file * Z * depth * bool * list aop * list (Z * list Z * Z)) : bool := let '(fs, isz, d, fresh, ops, ex) := c in alleq (map enc (runcase fs isz d fresh ops)) ex.",
                  "Definition idx := map fst (filter (fun p => negb (ok (snd p))) (combine (seq 0 (length cases)) cases)).",
                  "Eval vm_compute in (length cases, idx)."]
             rc, outp = vlib.coq_run(f"c02_{si // per}", "\n".join(v), timeout=300)
@@ -323,12 +349,13 @@ def run(R: vlib.Run):
                 hdrs, datas, isz, ops, res, (fresh, nbits) = sh[bi]
                 R.disagree("Model/Stream.v and FileReader differ", {"hdrlens": [len(h) for h in hdrs], "datas": [list(x) for x in datas], "isz": isz,
                                                                     "nbits": nbits, "fresh_reader": fresh,
-                                                                    "ops": ops, "impl": [(k, list(b), p) for k, b, p in res]})
+                                                                    "ops": ops, "impl": [(r[0], list(r[1]), r[2]) for r in res]})
         # ---- read_block over real filterbank files ----------------------------------------------
         # every file of a set has a header of a different byte length; "lib": data sections written by FileWriter.cwrite,
         # "raw": written with numpy (sets of >= 2 files)
         from sigpyproc.readers import FilReader
         nprng = np.random.default_rng(R.seed)
+        rbsets = []   # numpy-written sets for the Coq correspondence: (nbits, nch, N, [(header bytes, data bytes)], [(start, ns, kind, values)])
         for nbits in (1, 2, 4, 8, 16, 32):
             for nf in (1, 2, 3):
                 # one sample is a whole number of bytes (R.assume): samp_stride = int(nchans*nbits/8) is not meaningful otherwise
@@ -343,21 +370,66 @@ def run(R: vlib.Run):
                         paths = write_raw_set(os.path.join(d, f"rr{nbits}_{nf}"), x, nbits, splits)
                     fil = FilReader(paths)
                     sfx = "" if writer == "lib" else "-rawfile"
+                    rbc = []
+                    if writer == "raw":
+                        # header = whatever the library wrote before the data section this check appended
+                        bnd = [0] + splits + [N]
+                        fsb = []
+                        for i, pth in enumerate(paths):
+                            content = open(pth, "rb").read()
+                            dlen = (bnd[i + 1] - bnd[i]) * nch * nbits // 8
+                            fsb.append((content[:len(content) - dlen], content[len(content) - dlen:]))
+                        rbsets.append((nbits, nch, N, fsb, rbc))
                     for start in range(-1, N + 2):
                         for ns in range(1, N + 3):
                             inr = start >= 0 and start + ns <= N
                             R.case(("rb", nbits, nf, start, ns, writer), regime="read_block_" + ("in" if inr else "out") + sfx.replace("-", "_"))
+                            rec = (3, [])
                             try:
                                 b = fil.read_block(start, ns)
+                                flatv = np.asarray(b.data).T.ravel()
+                                rec = (1, list(flatv.astype({16: "<u2", 32: "<f4"}[nbits]).tobytes()) if nbits > 8 else [int(v) for v in flatv])
                                 if not inr:
                                     R.fail("read_block-range" + sfx, "out-of-range read_block did not raise ValueError", {"nbits": nbits, "files": nf, "start": start, "nsamps": ns, "N": N})
                                 elif b.data.shape != (nch, ns) or not np.array_equal(np.asarray(b.data).T, x[start:start + ns]):
                                     R.fail("read_block-values" + sfx, "read_block differs from the model slice", {"nbits": nbits, "splits": splits, "start": start, "nsamps": ns, "x": x.tolist(), "data_written_by": writer})
                             except ValueError:
+                                rec = (2, [])
                                 if inr:
                                     R.fail("read_block-raise" + sfx, "in-range read_block raised ValueError", {"nbits": nbits, "splits": splits, "start": start, "nsamps": ns, "N": N, "data_written_by": writer})
                             except Exception as e:  # noqa: BLE001
                                 R.fail("read_block-exc" + sfx, f"read_block raised {type(e).__name__}", {"nbits": nbits, "splits": splits, "start": start, "nsamps": ns, "N": N, "in_range": inr, "data_written_by": writer})
+                            rbc.append((start, ns) + rec)
+        # ---- correspondence: read_block on the numpy-written sets vs Model/StreamApi.v api_read_block (real header bytes, fresh reader;
+        #      one sample = nch*nbits/8 bytes; 1/2/4 bits: the block holds the unpacked samples of the bytes read) ----
+        for ci in range(0, len(rbsets), 6):
+            v = ["From Coq Require Import ZArith List Bool.", "Require Import SPP.Base.Rt SPP.Model.Stream SPP.Model.StreamApi.", "Import ListNotations.", "Open Scope Z_scope.",
+                 "Definition rb (d : depth) (fs : list file) (stride N start ns : Z) : Z * list Z := match api_read_block fs stride N start ns with OBytes l => (1, unpack_out d l) | OErr ValueError => (2, []) | _ => (9, []) end.",
+                 "Definition okc (d : depth) (fs : list file) (stride N : Z) (c : Z * Z * Z * list Z) : bool := let '(start, ns, k, l) := c in let '(k', l') := rb d fs stride N start ns in (k =? k') && list_eqb l l'."]
+            names = []
+            for k, (nbits, nch, N, fsb, rbc) in enumerate(rbsets[ci:ci + 6]):
+                v.append(f"Definition fs{k} : list file := [" + "; ".join(f"mkfile {vlib.zlist(h)} {vlib.zlist(dt)}" for h, dt in fsb) + "].")
+                v.append(f"Definition cs{k} : list (Z * Z * Z * list Z) := [" + ";\n".join(f"({a}, {n}, {kd}, {vlib.zlist(vals)})" for a, n, kd, vals in rbc) + "].")
+                v.append(f"Definition bad{k} := map (fun c => (fst (fst (fst c)), snd (fst (fst c)))) (filter (fun c => negb (okc {coq_depth(nbits)} fs{k} {nch * nbits // 8} {N} c)) cs{k}).")
+                names.append(k)
+            v.append("Eval vm_compute in (" + " + ".join(f"length cs{k}" for k in names) + ")%nat.")
+            v.append("Eval vm_compute in [" + "; ".join(f"bad{k}" for k in names) + "].")
+            rc, outp = vlib.coq_run(f"c02_rb{ci // 6}", "\n".join(v), timeout=300)
+            vals = vlib.parse_eval(outp)
+            if rc != 0 or len(vals) < 2:
+                R.red.append("correspondence: Corr/c02_rb did not evaluate: " + outp[-400:])
+                continue
+            R.extra_cov["read_blocks_validated_against_model"] = R.extra_cov.get("read_blocks_validated_against_model", 0) + int(re.findall(r"\d+", vals[0])[0])
+            badl = re.findall(r"\[([^\[\]]*)\]", vals[1].strip()[1:-1]) if "(" in vals[1] else []
+            for k, bl in enumerate(badl):
+                prs = re.findall(r"\((-?\d+),\s*(-?\d+)\)", bl)
+                if prs:
+                    nbits, nch, N, fsb, rbc = rbsets[ci + k]
+                    a, n = int(prs[0][0]), int(prs[0][1])
+                    got = next(c for c in rbc if c[0] == a and c[1] == n)
+                    R.disagree("Model/StreamApi.v api_read_block and FilReader.read_block differ",
+                               {"nbits": nbits, "nchans": nch, "N": N, "hdrlens": [len(h) for h, _ in fsb], "datas": [list(dt) for _, dt in fsb],
+                                "start": a, "nsamps": n, "impl": (got[2], list(got[3])), "mismatching_requests": len(prs)})
     finally:
         shutil.rmtree(d, ignore_errors=True)
 
